@@ -5,9 +5,11 @@ import (
 	"fmt"
 	"os"
 	"path/filepath"
+	"runtime"
 	"sort"
 	"strings"
 	"sync"
+	"syscall"
 	"time"
 
 	"verif/internal/evidence"
@@ -221,4 +223,74 @@ func parallel(n, k int, f func(i int)) {
 	}
 	close(ch)
 	wg.Wait()
+}
+
+// ---------------------------------------------------------------------------
+// Guard for in-process calls into /repo code (hook entry points). Such a call
+// can loop forever or eat memory if the code under test is broken; the driver
+// must then report a violation that names the case, not die or hang. A
+// goroutine watches the CPU time (not wall time) and the heap used since the
+// current guarded call began.
+// ---------------------------------------------------------------------------
+
+type guardState struct {
+	mu     sync.Mutex
+	active map[int]*guardCall
+	next   int
+	once   sync.Once
+}
+
+type guardCall struct {
+	desc  string
+	cpu0  time.Duration
+	files map[string]string
+}
+
+func cpuNowCtx() time.Duration {
+	var ru syscall.Rusage
+	if syscall.Getrusage(syscall.RUSAGE_SELF, &ru) != nil {
+		return 0
+	}
+	return time.Duration(ru.Utime.Nano() + ru.Stime.Nano())
+}
+
+var guards guardState
+
+// Guard runs f; if the process burns more than 120 CPU-seconds or grows the
+// heap beyond 12 GB while f is running, the case is reported as a violation
+// ("does not terminate") and the check ends.
+func (c *Ctx) Guard(desc string, files map[string]string, f func()) {
+	guards.once.Do(func() {
+		guards.active = map[int]*guardCall{}
+		go func() {
+			for {
+				time.Sleep(500 * time.Millisecond)
+				var ms runtime.MemStats
+				runtime.ReadMemStats(&ms)
+				now := cpuNowCtx()
+				guards.mu.Lock()
+				for _, g := range guards.active {
+					// several guarded calls may run at once (worker goroutines):
+					// the CPU budget is shared, hence generous
+					if now-g.cpu0 > 120*time.Second*time.Duration(len(guards.active)) || ms.HeapAlloc > 12<<30 {
+						c.Violation("in-process-call-does-not-terminate", &Replay{Why: fmt.Sprintf("a call into the code under test did not return within its CPU / memory budget (cpu %.0fs, heap %d MB): %s", (now - g.cpu0).Seconds(), ms.HeapAlloc>>20, g.desc), Files: g.files})
+						code := c.finish(nil)
+						os.Exit(code)
+					}
+				}
+				guards.mu.Unlock()
+			}
+		}()
+	})
+	guards.mu.Lock()
+	id := guards.next
+	guards.next++
+	guards.active[id] = &guardCall{desc: desc, cpu0: cpuNowCtx(), files: files}
+	guards.mu.Unlock()
+	defer func() {
+		guards.mu.Lock()
+		delete(guards.active, id)
+		guards.mu.Unlock()
+	}()
+	f()
 }
